@@ -177,7 +177,6 @@ fn is_identity(a: &IM) -> bool {
     let m = a.len();
     a.iter().enumerate().all(|(i, r)| r.len() == m && r.iter().enumerate().all(|(j, e)| if i == j { *e == Zq::one() } else { e.is_zero() }))
 }
-fn identity(m: usize) -> IM { (0..m).map(|i| (0..m).map(|j| if i == j { Zq::one() } else { Zq::zero() }).collect()).collect() }
 
 fn lead(row: &[Zq]) -> usize { row.iter().position(|e| !e.is_zero()).unwrap_or(row.len()) }
 
@@ -528,7 +527,6 @@ fn verdict_lll(a: &IM, b: &IM, p: &IM, q: &IM, m: usize, n: usize, k: Kind) -> S
 }
 fn dims_ok(a: &IM, m: usize, n: usize) -> bool { a.len() == m && a.iter().all(|r| r.len() == n) }
 
-const KNOWN_TOP_PIVOT: &str = "KNOWN? HNF: the pivot of the first row is returned un-normalised (LLLHNFCalc never normalises the last processed row)";
 
 fn hnf_case(s: &mut Sink, cx: &mut Ctx, r: &mut Rng, ty: Ty, a: &IM, m: usize, n: usize) {
     let k = ty.kind();
@@ -555,14 +553,7 @@ fn hnf_case(s: &mut Sink, cx: &mut Ctx, r: &mut Rng, ty: Ty, a: &IM, m: usize, n
         let hs = hnf_shape(&h, n, k);
         match &hs {
             Ok(()) => s.oracle(true, "H is in row echelon form with normalised pivots and reduced columns", &d, ""),
-            Err(e) => {
-                // the one suspected defect: only the top pivot is un-normalised
-                let mut h2 = h.clone();
-                let known = m > 0 && { let c = lead(&h2[0]); c < n && !h2[0][c].normalised(k) && { normalise_row(&mut h2[0], c, k); hnf_shape(&h2, n, k).is_ok() } };
-                let clause = if known { KNOWN_TOP_PIVOT } else { "H is in row echelon form with normalised pivots and reduced columns" };
-                s.oracle(false, clause, &d, &format!("{}; H={}", e, im_txt(&h, m, n, k)));
-                if known { s.count("hnf.known-top-pivot"); }
-            }
+            Err(e) => s.oracle(false, "H is in row echelon form with normalised pivots and reduced columns", &d, &format!("{}; H={}", e, im_txt(&h, m, n, k))),
         }
         let mut p_unimod: Option<IM> = None; // verified inverse of P
         if let Some(p) = &p {
@@ -617,18 +608,6 @@ fn hnf_case(s: &mut Sink, cx: &mut Ctx, r: &mut Rng, ty: Ty, a: &IM, m: usize, n
                 if flags[1] { q.as_ref().map(|q| im_txt(q, m, m, k)).unwrap_or("none".into()) } else { "-".into() });
             s.case(&req, &reply, m > 1);
         }
-    }
-}
-
-fn normalise_row(row: &mut [Zq], c: usize, k: Kind) {
-    // multiply by the unit that brings row[c] to the normalised sector
-    let units: Vec<Zq> = match k {
-        Kind::Z => vec![Zq(zi(1), zi(0)), Zq(zi(-1), zi(0))],
-        Kind::G => vec![Zq(zi(1), zi(0)), Zq(zi(0), zi(1)), Zq(zi(-1), zi(0)), Zq(zi(0), zi(-1))],
-        Kind::E => vec![Zq(zi(1), zi(0)), Zq(zi(0), zi(1)), Zq(zi(-1), zi(1)), Zq(zi(-1), zi(0)), Zq(zi(0), zi(-1)), Zq(zi(1), zi(-1))],
-    };
-    for u in units {
-        if row[c].mul(&u, k).normalised(k) { for e in row.iter_mut() { *e = e.mul(&u, k); } return; }
     }
 }
 
@@ -966,6 +945,12 @@ fn main() {
         (Kind::G, q2(&[&[(0, -1)]])),
         (Kind::E, q2(&[&[(0, 0), (-1, 1)], &[(0, 1), (2, 0)]])),
         (Kind::G, q2(&[&[(1, 1), (2, 0)], &[(2, 0), (2, -2)]])),
+        // regression witnesses of the un-normalised first pivot (fixed in /repo 35212c3)
+        (Kind::G, q2(&[&[(0, 0), (1, 0)], &[(0, 1), (0, 0)]])),
+        (Kind::G, q2(&[&[(-2, -5)]])),
+        (Kind::E, q2(&[&[(0, 0), (1, 0)], &[(0, 1), (0, 0)]])),
+        (Kind::E, q2(&[&[(-1, 1), (4, 0)]])),
+        (Kind::Z, z(&[&[0, 0, 1], &[0, -1, 0], &[-1, 0, 0]])),
     ];
     for (k, a) in &corpus_hnf {
         let (m, n) = shape(a, 0);
